@@ -2,8 +2,11 @@
 Model of the time-unit logic of ingest (C16), mirroring — quirks included —
 
   pkg/utils/dateutils.go
-      ExtractTimeStamp            (l.100-140)  JSON scalar under the timestamp key → epoch milliseconds,
+      ExtractTimeStamp            (l.100-149)  JSON scalar under the timestamp key → epoch milliseconds,
                                                0 = "no usable time, caller substitutes the arrival time"
+                                               (as repaired: ns → ms in the Number branch too; small
+                                               non-negative floats are scaled by 1000 and rounded
+                                               BEFORE the conversion to uint64)
       ConvertTimestampToMillis    (l.142-171)  string scalar: ParseUint, ns → ms, s → ms, then date layouts
       IsTimeInMilli / IsTimeInNano             REGENERATED: SigModel.Gen.IsTimeInMilli / IsTimeInNano
       normalizeIntToSeconds                    REGENERATED: SigModel.Gen.normalizeIntToSeconds
@@ -290,6 +293,15 @@ def extractTimeStamp : Scalar → Res
 def storedMillis (tsNow : Int) (sc : Scalar) : Res :=
   match extractTimeStamp sc with
   | .ms n => if n = 0 then .ms tsNow else .ms n
+  | .now => .now
+
+/-- the time an event ends up with after a protocol handler and `ProcessIndexRequestPle`
+(pkg/es/writer/esBulkHandler.go, after the repair): the raw JSON's own timestamp wins; otherwise the
+time the protocol handler already put on the event (`handlerMs`, 0 = none: GetNewPLE's arrival time;
+OTLP logs: time_unix_nano / 10^6); otherwise the arrival time (rendered `.now`). -/
+def ingestStored (handlerMs : Int) (sc : Scalar) : Res :=
+  match extractTimeStamp sc with
+  | .ms n => if n ≠ 0 then .ms n else if handlerMs ≠ 0 then .ms handlerMs else .now
   | .now => .now
 
 /-! ## metrics: "timestamp" → uint32 seconds -/
